@@ -165,7 +165,7 @@ package termincommittee
 //@   requires [term-not-yet-committed] ncommitted == 0
 //@   ensures [O9.lock-kept] LockKept(tic, old(tic.preparedLocally), old(tic.preparedLocally.isPreparedLocally), old(tic.preparedLocally.latestView))
 //@   inv GhostInv(tic)
-//@   props C08 C10 C03
+//@   props C08 C10 C03 C09
 //@   requires TicOK(tic)
 //@   requires [FilterOK] pm != nil && pm.content != nil && pm.content.SignedHeader().BlockHeight() == tic.State.height && pm.content.Sender().MemberId() != tic.myMemberId
 //@   modifies @TIC
@@ -174,7 +174,7 @@ package termincommittee
 //@   requires [term-not-yet-committed] ncommitted == 0
 //@   ensures [O9.lock-kept] LockKept(tic, old(tic.preparedLocally), old(tic.preparedLocally.isPreparedLocally), old(tic.preparedLocally.latestView))
 //@   inv GhostInv(tic)
-//@   props C08 C10 C03
+//@   props C08 C10 C03 C09
 //@   requires TicOK(tic)
 //@   requires [FilterOK] cm != nil && cm.content != nil && cm.content.SignedHeader().BlockHeight() == tic.State.height && cm.content.Sender().MemberId() != tic.myMemberId
 //@   modifies @TIC
@@ -184,7 +184,7 @@ package termincommittee
 //@   requires [counted-only-from-current-view-on] view >= tic.State.view
 //@   ensures [O9.lock-kept] LockKept(tic, old(tic.preparedLocally), old(tic.preparedLocally.isPreparedLocally), old(tic.preparedLocally.latestView))
 //@   inv GhostInv(tic)
-//@   props C10 C03
+//@   props C10 C03 C09
 //@   requires TicOK(tic)
 //@   requires blockHeight == tic.State.height
 //@   modifies @TIC
@@ -195,7 +195,7 @@ package termincommittee
 //@   requires [term-not-yet-committed] ncommitted == 0
 //@   ensures [O9.lock-kept] LockKept(tic, old(tic.preparedLocally), old(tic.preparedLocally.isPreparedLocally), old(tic.preparedLocally.latestView))
 //@   inv GhostInv(tic)
-//@   props C03 C04 C10 C13
+//@   props C03 C04 C10 C13 C09
 //@   requires TicOK(tic)
 //@   requires blockHeight == tic.State.height
 //@   modifies @TIC
@@ -244,7 +244,7 @@ package termincommittee
 //@ func (*TermInCommittee).processPreprepare
 //@   requires [term-not-yet-committed] ncommitted == 0
 //@   ensures [O9.lock-kept] LockKept(tic, old(tic.preparedLocally), old(tic.preparedLocally.isPreparedLocally), old(tic.preparedLocally.latestView))
-//@   props C04 C07 C08 C10
+//@   props C04 C07 C08 C10 C09
 //@   requires TicOK(tic)
 //@   inv GhostInv(tic)
 //@   requires [adopt.authentic-proposal] ProposalOK(tic, ppm)
@@ -255,7 +255,7 @@ package termincommittee
 //@ func (*TermInCommittee).HandlePrePrepare
 //@   requires [term-not-yet-committed] ncommitted == 0
 //@   ensures [O9.lock-kept] LockKept(tic, old(tic.preparedLocally), old(tic.preparedLocally.isPreparedLocally), old(tic.preparedLocally.latestView))
-//@   props C04 C07 C08 C10
+//@   props C04 C07 C08 C10 C09
 //@   requires TicOK(tic)
 //@   inv GhostInv(tic)
 //@   requires [FilterOK] ppm != nil && ppm.content != nil && ppm.content.SignedHeader().BlockHeight() == tic.State.height && ppm.content.Sender().MemberId() != tic.myMemberId
@@ -332,7 +332,7 @@ package termincommittee
 //@ func (*TermInCommittee).HandleNewView
 //@   requires [term-not-yet-committed] ncommitted == 0
 //@   ensures [O9.lock-kept] LockKept(tic, old(tic.preparedLocally), old(tic.preparedLocally.isPreparedLocally), old(tic.preparedLocally.latestView))
-//@   props C04 C07 C08 C10
+//@   props C04 C07 C08 C10 C09
 //@   requires TicOK(tic)
 //@   inv GhostInv(tic)
 //@   requires [FilterOK] nvm != nil && nvm.content != nil && nvm.content.SignedHeader().BlockHeight() == tic.State.height && nvm.content.Sender().MemberId() != tic.myMemberId
